@@ -61,6 +61,9 @@ var c15Constraints = []struct {
 func c15Gen(seed int64, idx int) c15Case {
 	rng := core.Derive(seed, "c15", idx)
 	n := rng.Range(1, 12)
+	if rng.Chance(1, 60) {
+		n = rng.Range(60, 80) // more packages than fit a machine word
+	}
 	c := c15Case{Files: map[string]string{}}
 	pkgs := make([]c15Pkg, n)
 	for i := range pkgs {
@@ -74,6 +77,11 @@ func c15Gen(seed int64, idx int) c15Case {
 		default:
 			p.Import = p.Name
 		}
+		if i > 0 && rng.Chance(1, 6) {
+			// a package below another package's import path: wherever the parent is placed, the directory named by
+			// the parent's full path may exist and hold nothing but this sub-package
+			p.Import = pkgs[rng.Intn(i)].Import + "/" + p.Name
+		}
 		// dependencies only on lower-numbered packages: acyclic
 		for j := 0; j < i; j++ {
 			if rng.Chance(1, 3) && len(p.Deps) < 4 {
@@ -82,6 +90,16 @@ func c15Gen(seed int64, idx int) c15Case {
 		}
 		if i > 0 && len(p.Deps) == 0 && rng.Chance(2, 3) {
 			p.Deps = []int{rng.Intn(i)}
+		}
+		if n >= 60 && i > 0 {
+			// the large graphs are reachable as a whole: every package also imports its predecessor
+			has := false
+			for _, d := range p.Deps {
+				has = has || d == i-1
+			}
+			if !has {
+				p.Deps = append(p.Deps, i-1)
+			}
 		}
 	}
 	entry := n - 1
@@ -435,7 +453,7 @@ func c15Check(c c15Case, log []string, o core.Outcome) string {
 }
 
 func runC15(r *core.Run) {
-	r.SetRule("random acyclic import graphs of 1-12 packages (fan-out <= 4, diamonds, chains, unreachable packages), 1-4 files per package with sort-order trap names, per-file imports, aliases and blank imports, directories at the full import path / under vendor/ (optionally with a decoy at the plain path) / at a shortened suffix, //go:build lines of known truth (first line, after blank lines, after comment blocks that mention 'package', 'import' and 'func', before a package comment), 1-3 _test.go files incl. package x_test and adjacent ones; top-level statements with block-scoped variables (for, range, switch and if with init) in packages at every depth of the graph; entry through Load(package) or Eval with an import; plus every digraph on <= 3 nodes and every sparse digraph on 4 nodes with a cycle reachable from the entry, and conflicting package clauses. non-trivial = at least 2 packages ran markers (or the case must fail); distinct by file tree")
+	r.SetRule("random acyclic import graphs of 1-12 packages (one in sixty of 60-80), packages whose import path lies below another package's path, (fan-out <= 4, diamonds, chains, unreachable packages), 1-4 files per package with sort-order trap names, per-file imports, aliases and blank imports, directories at the full import path / under vendor/ (optionally with a decoy at the plain path) / at a shortened suffix, //go:build lines of known truth (first line, after blank lines, after comment blocks that mention 'package', 'import' and 'func', before a package comment), 1-3 _test.go files incl. package x_test and adjacent ones; top-level statements with block-scoped variables (for, range, switch and if with init) in packages at every depth of the graph; entry through Load(package) or Eval with an import; plus every digraph on <= 3 nodes and every sparse digraph on 4 nodes with a cycle reachable from the entry, and conflicting package clauses. non-trivial = at least 2 packages ran markers (or the case must fail); distinct by file tree")
 	r.Assume("only the partial order (dependencies before dependents), exactly-once and the exclusion rules are judged, not one particular topological order")
 	n := r.N(3000, 120000)
 	core.Parallel((n+99)/100, func(chunk int) {
